@@ -40,7 +40,7 @@ theorem case_flat (L : Layout) (f : Nat) (fs : RStmt) (m m' : SrcSt) (h : sem L 
     Result L (pre ++ (gen g (.flat fs)).1 ++ post) pre.length s (pre.length + (gen g (.flat fs)).1.length) m'
       (gen g (.flat fs)).2.flags := by
   simp only [sem, Option.some.injEq] at h
-  obtain ⟨s', hs, hmem, hsp, hz⟩ := flat_steps L fs g.flags pre post s hinv
+  obtain ⟨s', hs, hmem, hsp, hz⟩ := flat_steps L (zpL g.abs) fs g.flags pre post s hinv
   refine ⟨s', by simpa [gen, genFlat] using hs, ?_, by simpa [gen, genFlat] using hz, hsp⟩
   rw [hmem, hm, h]
 
@@ -509,31 +509,31 @@ theorem case_for (L : Layout) (f : Nat) (ihs : ∀ j, j ≤ f → Correct L j) (
   simp only [SInFragment, Bool.and_eq_true] at hfr
   obtain ⟨⟨⟨_, hokc⟩, _⟩, hfrb⟩ := hfr
   simp only [gen, genFlat]
-  rcases hc1 : genCond { g with cFor := g.cFor + 1, flags := flagsAfter g.flags i } c true ⟨.forend, g.cFor + 1⟩ with ⟨c1, g2⟩
+  rcases hc1 : genCond { g with cFor := g.cFor + 1, flags := flagsAfter (zpL g.abs) g.flags i } c true ⟨.forend, g.cFor + 1⟩ with ⟨c1, g2⟩
   rcases hcb : gen { g2 with flags := none } b with ⟨cb, g3⟩
-  rcases hc2 : genCond { g3 with flags := flagsAfter none u } c false ⟨.for_, g.cFor + 1⟩ with ⟨c2, g5⟩
+  rcases hc2 : genCond { g3 with flags := flagsAfter (zpL g3.abs) none u } c false ⟨.for_, g.cFor + 1⟩ with ⟨c2, g5⟩
   dsimp only
   generalize hfl : (⟨.for_, g.cFor + 1⟩ : Lbl) = fl
   generalize hfu : (⟨.forupdate, g.cFor + 1⟩ : Lbl) = fu
   generalize hfe : (⟨.forend, g.cFor + 1⟩ : Lbl) = fe
-  generalize hci : flatLines i = ci
-  generalize hcu : flatLines u = cu
-  have hlci : labels ci = [] := by rw [← hci]; exact labels_flatLines i
-  have hlcu : labels cu = [] := by rw [← hcu]; exact labels_flatLines u
-  have hf1 : Fresh { g with cFor := g.cFor + 1, flags := flagsAfter g.flags i } (c1, g2) := hc1 ▸ genCond_fresh ..
+  generalize hci : flatLines (zpL g.abs) i = ci
+  generalize hcu : flatLines (zpL g3.abs) u = cu
+  have hlci : labels ci = [] := by rw [← hci]; exact labels_flatLines _ i
+  have hlcu : labels cu = [] := by rw [← hcu]; exact labels_flatLines _ u
+  have hf1 : Fresh { g with cFor := g.cFor + 1, flags := flagsAfter (zpL g.abs) g.flags i } (c1, g2) := hc1 ▸ genCond_fresh ..
   have hfb : Fresh g2 (cb, g3) := by
     have := gen_fresh b { g2 with flags := none }
     rw [hcb, fresh_flags_left] at this
     exact this
   have hf2 : Fresh g3 (c2, g5) := by
-    have : Fresh { g3 with flags := flagsAfter none u } (c2, g5) := hc2 ▸ genCond_fresh ..
+    have : Fresh { g3 with flags := flagsAfter (zpL g3.abs) none u } (c2, g5) := hc2 ▸ genCond_fresh ..
     rwa [fresh_flags_left] at this
   have hk1 := fresh_ctr_le hf1 .cFor
   have hk2 := fresh_ctr_le hfb .cFor
   simp [GState.ctr] at hk1 hk2
-  have hm0 : Mono g { g with cFor := g.cFor + 1, flags := flagsAfter g.flags i } := by
+  have hm0 : Mono g { g with cFor := g.cFor + 1, flags := flagsAfter (zpL g.abs) g.flags i } := by
     intro k; cases k <;> simp [GState.ctr]
-  have hold_a : Old { g with cFor := g.cFor + 1, flags := flagsAfter g.flags i } (pre ++ ci) :=
+  have hold_a : Old { g with cFor := g.cFor + 1, flags := flagsAfter (zpL g.abs) g.flags i } (pre ++ ci) :=
     old_nolabels (hold.mono hm0) hlci
   have hold_b : Old { g2 with flags := none } (pre ++ ci ++ c1 ++ [GLine.lab fl]) := by
     rw [old_flags]
@@ -542,7 +542,7 @@ theorem case_for (L : Layout) (f : Nat) (ihs : ∀ j, j ≤ f → Correct L j) (
     simp at hl
     subst hl
     rw [← hfl]; simp [LKind.ctr, GState.ctr, Lbl.idx]; omega
-  have hold_c : Old { g3 with flags := flagsAfter none u } (pre ++ ci ++ c1 ++ [GLine.lab fl] ++ cb ++ [GLine.lab fu] ++ cu) := by
+  have hold_c : Old { g3 with flags := flagsAfter (zpL g3.abs) none u } (pre ++ ci ++ c1 ++ [GLine.lab fl] ++ cb ++ [GLine.lab fu] ++ cu) := by
     rw [old_flags]
     refine old_nolabels ((((old_flags g2 none _).mp hold_b |>.mono hfb.1).append (Old.of_fresh hfb)).append ?_) hlcu
     intro l hl
@@ -644,14 +644,14 @@ theorem case_for (L : Layout) (f : Nat) (ihs : ∀ j, j ≤ f → Correct L j) (
                 rw [← w4] at this
                 exact this.cast (by len_arith) (by len_arith)
               -- update statement
-              obtain ⟨s3, hs3, hm3, hsp3, hz3⟩ := flat_steps L u none (pre ++ ci ++ c1 ++ [GLine.lab fl] ++ cb ++ [GLine.lab fu]) (c2 ++ [GLine.lab fe] ++ post) s2 trivial
+              obtain ⟨s3, hs3, hm3, hsp3, hz3⟩ := flat_steps L (zpL g3.abs) u none (pre ++ ci ++ c1 ++ [GLine.lab fl] ++ cb ++ [GLine.lab fu]) (c2 ++ [GLine.lab fe] ++ post) s2 trivial
               rw [hcu, ← w5] at hs3
               have hs3' : Steps L whole (pre.length + ci.length + c1.length + 1 + cb.length + 1) s2
                   (pre.length + ci.length + c1.length + 1 + cb.length + 1 + cu.length) s3 :=
                 hs3.cast (by len_arith) (by len_arith)
               have hmem3 : srcOf s3 = m2 := by rw [hm3, hm2, hbody]
               -- second condition
-              have hc := genCond_correct L c { g3 with flags := flagsAfter none u } false fl hokc
+              have hc := genCond_correct L c { g3 with flags := flagsAfter (zpL g3.abs) none u } false fl hokc
               rw [hfl] at hc2
               rw [hc2] at hc
               have hc' := hc (pre ++ ci ++ c1 ++ [GLine.lab fl] ++ cb ++ [GLine.lab fu] ++ cu) ([GLine.lab fe] ++ post) s3
@@ -675,11 +675,11 @@ theorem case_for (L : Layout) (f : Nat) (ihs : ∀ j, j ≤ f → Correct L j) (
                 simp only [sem, hev2', Bool.false_eq_true, if_false, Option.some.injEq] at hs
                 exact ⟨s4, ((((h0.trans hs2').trans h3).trans hs3').trans hs4').trans (hlast s4), by rw [hm4, hmem3, hs], trivial, by rw [hsp4, hsp3, hsp2]⟩
   -- the initialisation
-  obtain ⟨sa, hsa, hma, hspa, hza⟩ := flat_steps L i g.flags pre
+  obtain ⟨sa, hsa, hma, hspa, hza⟩ := flat_steps L (zpL g.abs) i g.flags pre
     (c1 ++ [GLine.lab fl] ++ cb ++ [GLine.lab fu] ++ cu ++ c2 ++ [GLine.lab fe] ++ post) s hinv
   rw [hci, ← w0] at hsa
   -- the first condition
-  have hc := genCond_correct L c { g with cFor := g.cFor + 1, flags := flagsAfter g.flags i } true fe hokc
+  have hc := genCond_correct L c { g with cFor := g.cFor + 1, flags := flagsAfter (zpL g.abs) g.flags i } true fe hokc
   rw [hfe] at hc1
   rw [hc1] at hc
   have hc' := hc (pre ++ ci) ([GLine.lab fl] ++ cb ++ [GLine.lab fu] ++ cu ++ c2 ++ [GLine.lab fe] ++ post) sa
